@@ -100,3 +100,22 @@ def tip_locals(prog, f):
         ls = find_locals(prog, f, lambda x, l, init=init: init(x), lambda x, l, init=init: not init(x))
         out.append(ls[0] if len(ls) == 1 else None)
     return tuple(out)
+
+
+def ingestion_wrapper_direct(prog, w):
+    """heartbeat::ingest_stable_blocks_into_utxoset hands the whole state to
+    state::ingest_stable_blocks_into_utxoset under no condition and returns its result: either the
+    function item itself is passed to with_state_mut, or a closure whose only return row is that call."""
+    from sa.util import table, the_closure
+    TARGET = 'ic_btc_canister::state::ingest_stable_blocks_into_utxoset'
+    cs = [c for c in w.calls_to('ic_btc_canister::with_state_mut') if not c.cleanup]
+    if len(cs) != 1 or cond_exprs(prog, w, cs[0].bb):
+        return False, 'with_state_mut is not called exactly once unconditionally'
+    if TARGET in cs[0].fn_args():
+        return True, 'function item passed to with_state_mut'
+    cl = the_closure(prog, w)
+    if cl is None:
+        return False, 'no single closure'
+    rows = table(prog, cl)
+    good = len(rows) == 1 and not rows[0][2] and P.call(TARGET, P.anything)(rows[0][1])
+    return good, 'closure rows: %s' % [(show(r[1]), [show(c) if c[0] not in ('is', 'switch') else c for c in r[2]]) for r in rows]
